@@ -1077,6 +1077,11 @@ impl MetadataClient for ObjectStoreMetadataClient {
         range: TimeRange,
         predicates: &[super::predicates::ColumnPredicate],
     ) -> Result<Vec<TimeIndexEntry>> {
+        // An inverted range is empty (and BTreeMap::range panics on start > end)
+        if range.start > range.end {
+            return Ok(Vec::new());
+        }
+
         // Load unified catalog (from cache or S3)
         let catalog = self.load_catalog_cached().await?;
 
